@@ -108,6 +108,15 @@ def one(acc, seq, bo, wo):
         return
     rseq = tuple((t, wire(t, v)) for t, v in seq)
     exp = rp.image(rseq, bo, wo)
+    # a builder that is reset and filled again must produce the same image (no state carried over)
+    try:
+        b.reset()
+        for t, v in seq:
+            getattr(b, ADD[t])(list(v) if t == 'bits' else v)
+        if b.to_string() != raw:
+            acc.violation('C19/%s/%s/image/after-reset' % (seq[0][0], tag), wit, 'image after reset() + refill %s, first %s' % (b.to_string().hex(), raw.hex()), tag)
+    except Exception as e:   # noqa
+        acc.violation('C19/%s/%s/image/after-reset-raise:%s' % (seq[0][0], tag, type(e).__name__), wit, repr(e)[:100], tag)
     if raw != exp:
         # attribute to the first item whose slice differs
         pos, typ = 0, seq[-1][0]
@@ -121,6 +130,17 @@ def one(acc, seq, bo, wo):
     if regs != rp.registers(exp) or b''.join(built) != bytes(exp) + b'\x00' * (len(exp) % 2):
         acc.violation('C19/%s/%s/image/registers' % (seq[0][0], tag), wit,
                       'to_registers() %r expected %r' % (regs[:8], rp.registers(exp)[:8]), tag)
+    # the documented way to send a payload: build() + skip_encode=True must put the same registers on the wire
+    if built and len(built) <= 123:
+        try:
+            from pymodbus.register_write_message import WriteMultipleRegistersRequest
+            wire_pdu = WriteMultipleRegistersRequest(0x0010, built, skip_encode=True).encode()
+            want_pdu = struct.pack('>HHB', 0x0010, len(built), 2 * len(built)) + bytes(exp) + b'\x00' * (len(exp) % 2)
+            if wire_pdu != want_pdu:
+                acc.violation('C19/%s/%s/image/skip-encode' % (seq[0][0], tag), wit,
+                              'write-registers PDU from build() %s, expected %s' % (wire_pdu.hex()[:60], want_pdu.hex()[:60]), tag)
+        except Exception as e:   # noqa
+            acc.violation('C19/%s/%s/image/skip-encode-raise:%s' % (seq[0][0], tag, type(e).__name__), wit, repr(e)[:100], tag)
     for transport in ('bytes', 'registers'):
         try:
             if transport == 'bytes':
@@ -128,6 +148,10 @@ def one(acc, seq, bo, wo):
             else:
                 d = BinaryPayloadDecoder.fromRegisters(regs, byteorder=ORD[bo], wordorder=ORD[wo])
             got = decode_all(d, seq)
+            d.reset()                       # rewinding the decoder gives the same values again
+            again = decode_all(d, seq)
+            if [repr(x) for x in again] != [repr(x) for x in got]:
+                acc.violation('C19/%s/%s/roundtrip/%s/after-reset' % (seq[0][0], tag, transport), wit, 'second pass after reset() differs', tag)
         except Exception as e:   # noqa
             acc.violation('C19/%s/%s/roundtrip/%s/raise:%s' % (seq[0][0], tag, transport, type(e).__name__), wit, repr(e)[:120], tag)
             continue
